@@ -5,6 +5,8 @@ import (
 	"fmt"
 	"math/big"
 
+	"github.com/nspcc-dev/neo-go/pkg/core/native/nativenames"
+	"github.com/nspcc-dev/neo-go/pkg/neotest"
 	"github.com/nspcc-dev/neo-go/pkg/util"
 )
 
@@ -22,12 +24,23 @@ type feeCase struct {
 
 type FeeGrid struct {
 	N     int
+	Extra int // Inner Ring members that are not Alphabet nodes (0: the NeoFSAlphabet role is not designated at all)
 	owner util.Uint160
+	extra []*Account
 }
 
 func NewFeeGrid(n int) *FeeGrid { return &FeeGrid{N: n} }
 
-func (d *FeeGrid) Name() string { return fmt.Sprintf("container-fee-n%d", d.N) }
+// NewFeeGridIR is the grid on a chain whose Inner Ring (the NeoFSAlphabet role) is the n
+// Alphabet keys plus extra other keys: only the former are paid.
+func NewFeeGridIR(n, extra int) *FeeGrid { return &FeeGrid{N: n, Extra: extra} }
+
+func (d *FeeGrid) Name() string {
+	if d.Extra > 0 {
+		return fmt.Sprintf("container-fee-n%d-ring%d", d.N, d.N+d.Extra)
+	}
+	return fmt.Sprintf("container-fee-n%d", d.N)
+}
 func (d *FeeGrid) Rule() string {
 	return "product of ContainerFee {0,1,7} x ContainerAliasFee {0,3} x naming {none,new name,name reused after delete,domain registered in advance} x owner balance {T-1,T,T+1,2T-1,2T} x history {put; put,put; put,setConfig(fee'),put; put,setConfig(0),put} plus rows where the owner is an Alphabet node; non-trivial = T > 0; distinct by case"
 }
@@ -35,6 +48,19 @@ func (d *FeeGrid) Rule() string {
 func (d *FeeGrid) Build() *World {
 	w := buildContainerWorld(d.N, 0, 0)
 	d.owner = w.Acct("owner").Hash
+	d.extra = nil
+	if d.Extra > 0 {
+		var ks []any
+		for _, k := range w.Pubs {
+			ks = append(ks, k.Bytes())
+		}
+		for i := 0; i < d.Extra; i++ {
+			a := w.Acct(fmt.Sprintf("ring%d", i))
+			d.extra = append(d.extra, a)
+			ks = append(ks, a.Pub())
+		}
+		w.Invoke(w.E.NativeHash(w.T, nativenames.Designation), []neotest.Signer{w.CommS}, "designateAsRole", int64(16), ks)
+	}
 	w.Freeze()
 	return w
 }
@@ -92,6 +118,14 @@ func (d *FeeGrid) Eval(x *Exec, root *Node, gc GridCase) GridResult {
 			hpanic("C05 setup %s (%s): %s", label, gc.Name, o.Fault)
 		}
 	}
+	// a preparatory put is itself governed by the property: the owner holds exactly its total fee
+	mustPut := func(label string, scr []byte) bool {
+		if o := do(label, scr); !o.Halt {
+			vs = append(vs, Viol("fee-threshold", fmt.Sprintf("%s by an owner holding exactly the total fee is refused: %s", label, o.Fault), where))
+			return false
+		}
+		return true
+	}
 	sig, key, tok := []byte("sig"), append([]byte{2}, make([]byte, 32)...), []byte("session-token")
 	put := func(blob []byte, name string) []byte {
 		if name == "" {
@@ -138,7 +172,9 @@ func (d *FeeGrid) Eval(x *Exec, root *Node, gc GridCase) GridResult {
 		// a first container takes the name and is deleted again: the domain stays, without records
 		b0, cid0 := mkContainerBlob(owner, 100)
 		mintTo(big.NewInt(perNode(c.Fee, c.Alias, true) * N))
-		must("putNamed (first holder of the name)", put(b0, name))
+		if !mustPut("putNamed (first holder of the name)", put(b0, name)) {
+			return GridResult{Outcome: "refused", Nontrivial: true, V: vs}
+		}
 		must("delete (first holder)", Script(cnt, "delete", cid0, sig, tok))
 	case "prereg":
 		o, nn := x.Do(cur, Call{Script: Script(w.Contracts["nns"].Hash, "register", name+".container", w.Comm, "a@b.c", int64(3600), int64(600), int64(3600*24*365), int64(3600)),
@@ -154,19 +190,25 @@ func (d *FeeGrid) Eval(x *Exec, root *Node, gc GridCase) GridResult {
 		b1, _ := mkContainerBlob(owner, nonce)
 		nonce++
 		mintTo(big.NewInt(c.Fee * N))
-		must("first put", put(b1, ""))
+		if !mustPut("first put", put(b1, "")) {
+			return GridResult{Outcome: "refused", Nontrivial: true, V: vs}
+		}
 	case "put-setfee-put":
 		b1, _ := mkContainerBlob(owner, nonce)
 		nonce++
 		mintTo(big.NewInt(c.Fee * N))
-		must("first put", put(b1, ""))
+		if !mustPut("first put", put(b1, "")) {
+			return GridResult{Outcome: "refused", Nontrivial: true, V: vs}
+		}
 		fee, alias = c.Fee+2, c.Alias+1
 		setFee(fee, alias)
 	case "put-setzero-put":
 		b1, _ := mkContainerBlob(owner, nonce)
 		nonce++
 		mintTo(big.NewInt(c.Fee * N))
-		must("first put", put(b1, ""))
+		if !mustPut("first put", put(b1, "")) {
+			return GridResult{Outcome: "refused", Nontrivial: true, V: vs}
+		}
 		fee, alias = 0, 0 // the Alphabet makes containers free
 		setFee(fee, alias)
 	}
@@ -222,6 +264,12 @@ func (d *FeeGrid) Eval(x *Exec, root *Node, gc GridCase) GridResult {
 		if got := balOf(after, m.Hash); got.Cmp(want) != 0 {
 			where["node"] = i
 			vs = append(vs, Viol("node-credit", fmt.Sprintf("Alphabet node %d has %s, expected %s (+%d)", i, got, want, pn), where))
+			break
+		}
+	}
+	for _, a := range d.extra {
+		if got := balOf(after, a.Hash); got.Sign() != 0 {
+			vs = append(vs, Viol("node-credit", fmt.Sprintf("Inner Ring member %s, which is not an Alphabet node, was credited %s", a.Name, got), where))
 			break
 		}
 	}
